@@ -512,7 +512,8 @@ impl Deb822 {
             None => {
                 // appending: the separator must not merely terminate the last line
                 terminate_last_line(&self.0);
-                self.0.children().count()
+                // a reformatted document has comment tokens directly under the root
+                self.0.children_with_tokens().count()
             }
         };
         self.0
